@@ -686,7 +686,7 @@ func throughCall(v ssa.Value, at ssa.Instruction, pred func(*ssa.Call) bool, dep
 
 // responseContextPerResponse: every response of an operation gets an error context of its own.
 func responseContextPerResponse(c *Ctx) {
-	c.R.Rule("response-context-per-response", "graphql/executor: the function that produces one response (it takes a context, returns a *graphql.Response and hands a context plus a response producer to the response interceptors) passes them a context that comes from a graphql.WithResponseContext call made in that same function — a fresh error and extension store per response, not the one the operation was set up with", 1)
+	c.R.Rule("response-context-per-response", "graphql/executor: the function that produces one response (it takes a context, returns a *graphql.Response and hands a context plus a response producer to the response interceptors) passes them a context that comes from a graphql.WithResponseContext call made in that same function (the head of the chain: at least one must exist) or the context it was itself given (a link of the chain) — never a captured one: a fresh error and extension store per response, not the one the operation was set up with", 1)
 	n := 0
 	for _, lit := range c.moduleFuncs(func(p string) bool { return p == pkgExecutor }) {
 		if lit.Signature.Params().Len() != 1 || !isCtxT(lit.Signature.Params().At(0).Type()) || lit.Signature.Results().Len() != 1 || !strings.HasSuffix(lit.Signature.Results().At(0).Type().String(), "graphql.Response") {
@@ -703,18 +703,25 @@ func responseContextPerResponse(c *Ctx) {
 				if !isSig || sig.Params().Len() != 1 || !isCtxT(sig.Params().At(0).Type()) || sig.Results().Len() != 1 || !strings.HasSuffix(sig.Results().At(0).Type().String(), "graphql.Response") {
 					continue
 				}
-				// the interceptor chain as the executor keeps it (a function held in a struct field); the links of the chain
-				// itself call a captured `previous` and pass the context they were given
-				if ld, isLd := call.Call.Value.(*ssa.UnOp); !isLd || ld.Op != token.MUL {
-					continue
-				} else if _, isFA := ld.X.(*ssa.FieldAddr); !isFA {
-					continue
-				}
-				n++
-				ok = throughCall(call.Call.Args[0], call, func(k *ssa.Call) bool {
+				// either this is where the response's own context is made (WithResponseContext called here), or it is a link
+				// of the chain and passes on the context it was given; a captured context is neither
+				made := throughCall(call.Call.Args[0], call, func(k *ssa.Call) bool {
 					return k.Parent() == lit && an.CalleeOf(k).FullName() == pkgGraphql+".WithResponseContext"
 				}, 0, map[ssa.Value]bool{})
-				c.R.Check(ok, c.fnKey(lit)+"/response-producer", c.ipos(call), "the context of this response comes from WithResponseContext called here", "the function that produces one response hands the response interceptors a context whose response context was not made in it: every response of a subscription or deferred operation then records its errors and extensions into one shared store, and event k carries the errors of events 1..k")
+				given := false
+				if !made && len(lit.Params) > 0 {
+					roots := rootsOf(call.Call.Args[0], call, 0, map[ssa.Value]bool{})
+					given = len(roots) > 0
+					for _, r := range roots {
+						if r != ssa.Value(lit.Params[len(lit.Params)-1]) {
+							given = false
+						}
+					}
+				}
+				if made {
+					n++
+				}
+				c.R.Check(made || given, c.fnKey(lit)+"/response-producer", c.ipos(call), "the context of this response comes from WithResponseContext called here, or is the one handed in", "the function that produces one response hands the response interceptors a context it captured instead of one made for this response: every response of a subscription or deferred operation then records its errors and extensions into one shared store, and event k carries the errors of events 1..k")
 			}
 		}
 	}
@@ -725,13 +732,29 @@ func responseContextPerResponse(c *Ctx) {
 
 // freshResponseContextIsFresh: WithFreshResponseContext puts a new responseContext into the context.
 func freshResponseContextIsFresh(c *Ctx) {
-	c.R.Rule("fresh-response-context-is-fresh", "graphql.WithFreshResponseContext: the value it stores in the context is a responseContext allocated in that call, not the one it read from the incoming context", 1)
+	c.R.Rule("fresh-response-context-is-fresh", "graphql.WithFreshResponseContext (and the graphql constructor it may delegate to): the value stored in the context is a responseContext allocated in the storing function, under the key getResponseContext reads — not the one read from the incoming context", 1)
 	fn := c.fn(pkgGraphql, "WithFreshResponseContext")
 	if fn == nil {
 		return
 	}
 	n := 0
-	for _, call := range an.CallsIn(fn, func(_ ssa.CallInstruction, ci an.CalleeInfo) bool { return ci.FullName() == "context.WithValue" }) {
+	// the function itself and the graphql functions it builds the context with (WithResponseContext, a shared constructor)
+	scope := []*ssa.Function{fn}
+	for _, b := range fn.Blocks {
+		for _, in := range b.Instrs {
+			if ci, ok := in.(ssa.CallInstruction); ok {
+				if sc := ci.Common().StaticCallee(); sc != nil && sc.Pkg != nil && sc.Pkg.Pkg.Path() == pkgGraphql && sc.Name() != "getResponseContext" && len(sc.Blocks) > 0 && sc.Signature.Results().Len() > 0 && isCtxT(sc.Signature.Results().At(0).Type()) {
+					scope = append(scope, sc)
+				}
+			}
+		}
+	}
+	var sites []ssa.CallInstruction
+	for _, f := range scope {
+		sites = append(sites, an.CallsIn(f, func(_ ssa.CallInstruction, ci an.CalleeInfo) bool { return ci.FullName() == "context.WithValue" })...)
+	}
+	for _, call := range sites {
+		fn := call.Parent()
 		n++
 		al, ok := an.Strip(call.Common().Args[2]).(*ssa.Alloc)
 		// the key is the one getResponseContext reads with
@@ -807,14 +830,10 @@ func getErrorsCopies(c *Ctx) {
 
 // deferredErrorsAfterDispatch: a deferred group's errors are read after its fields ran.
 func deferredErrorsAfterDispatch(c *Ctx) {
-	c.R.Rule("deferred-errors-read-after-dispatch", "generated processDeferredGroup: every graphql.GetErrors call in the group's goroutine is made after the group's FieldSet.Dispatch (a snapshot taken before the fields ran is always empty)", 1)
+	c.R.Rule("deferred-errors-read-after-dispatch", "generated executors: in a function that both dispatches a field set and reads graphql.GetErrors (the goroutine of processDeferredGroup, whatever form it takes), every GetErrors call is made after a Dispatch (a snapshot taken before the fields ran is always empty)", 1)
 	n := 0
 	for _, g := range c.Gen {
-		fn := c.genFunc(g, "processDeferredGroup")
-		if fn == nil {
-			continue
-		}
-		for _, lit := range an.WithClosures(fn) {
+		for _, lit := range c.genFuncs(g) {
 			var dispatches, reads []ssa.Instruction
 			for _, b := range lit.Blocks {
 				for _, in := range b.Instrs {
@@ -846,7 +865,7 @@ func deferredErrorsAfterDispatch(c *Ctx) {
 		}
 	}
 	if n == 0 {
-		c.R.Fail("deferred-errors-read-after-dispatch: no GetErrors beside a Dispatch found in processDeferredGroup")
+		c.R.Fail("deferred-errors-read-after-dispatch: no generated function both dispatches a field set and reads GetErrors")
 	}
 }
 
@@ -950,14 +969,14 @@ func cleanupBodyOrder(c *Ctx) {
 		if k, ok := an.ConstString(call.Common().Args[1]); !ok || !strings.HasPrefix(k, "%") {
 			continue
 		}
-		// the function strips a prefix off its parameter somewhere (TrimPrefix, CutPrefix): the test must not look at the
-		// parameter as it came in
+		// the function strips a fixed prefix somewhere (TrimPrefix, CutPrefix): the test must not look at the parameter as it
+		// came in
 		strips := false
 		for _, k := range an.CallsIn(fn, func(_ ssa.CallInstruction, ci an.CalleeInfo) bool {
 			return ci.FullName() == "strings.TrimPrefix" || ci.FullName() == "strings.CutPrefix"
 		}) {
-			if _, isP := an.Strip(k.Common().Args[0]).(*ssa.Parameter); isP {
-				strips = true
+			if _, isK := k.Common().Args[1].(*ssa.Const); isK {
+				strips = true // wherever in the function: stripping after the test is the slip
 			}
 		}
 		if !strips {
@@ -1350,7 +1369,7 @@ func emptinessTestCoversFilled(c *Ctx, rule string, pkgs ...string) {
 
 // mismatchContinuesSearch: a search over declarations goes on to the next candidate when a name does not match.
 func mismatchContinuesSearch(c *Ctx, rule string, pkgs ...string) {
-	c.R.Rule(rule, "in "+strings.Join(shortPkgs(pkgs), ", ")+": inside a loop, the branch taken when a candidate's name differs from the name looked for (a string compared with a string parameter by !=) stays in that loop — it moves on to the next candidate; leaving the loop there ends the search at the first declaration that is not the wanted one", 3)
+	c.R.Rule(rule, "in "+strings.Join(shortPkgs(pkgs), ", ")+": inside a loop, the branch taken when a candidate's name differs from the name looked for (a string compared with a string parameter by !=) stays in that loop — it moves on to the next candidate; leaving the loop there ends the search at the first declaration that is not the wanted one", 1)
 	n := 0
 	for _, fn := range c.moduleFuncs(inPkgs(pkgs)) {
 		loops := an.Loops(fn)
@@ -1387,8 +1406,8 @@ func mismatchContinuesSearch(c *Ctx, rule string, pkgs ...string) {
 			c.R.Check(inner.Blocks[b.Succs[0]], c.fnKey(fn)+"/name-mismatch", c.ipos(iff), "a mismatch moves on to the next candidate", "when the candidate's name differs the loop is left instead of continued: the search stops at the first declaration that is not the one looked for, whatever stands after it is never found (never marked as copied, so it is written out a second time)")
 		}
 	}
-	if n < 3 {
-		c.R.Fail("%s: only %d name tests inside loops found", rule, n)
+	if n < 1 {
+		c.R.Fail("%s: no name test inside a loop found", rule)
 	}
 }
 
